@@ -31,6 +31,7 @@ func c07(c *Ctx) {
 	c07R7(c)
 	c07R8(c)
 	replayAllLinesRule(c, "R9")
+	replayVotesRule(c, "R10")
 }
 
 func c07R1(c *Ctx) {
